@@ -127,7 +127,7 @@ Qed.
 (* ---- a concrete lexed source: nested loops, a ':' at two levels ---- *)
 Definition ex_src : list Z := zs "[2 c [3 d : e] : f] g".
 Definition ex_toks : list tok :=
-  match lex (mkLex 96 [] init_vars rhythm_rows) ex_src 0 with Ok (toks, _) => toks | _ => [] end.
+  match lex (mkLex 96 [] init_vars rhythm_rows false) ex_src 0 with Ok (toks, _) => toks | _ => [] end.
 Definition ex_note (b : Z) : tok := TNote b 0 0 [] 0 (-1) ISIZE_MIN (-1) 0.
 Definition ex_p : prog tok :=
   PCons (Leaf (TLineNo 0))
